@@ -8,6 +8,7 @@ import RbV.Lemmas.MyersLongBand
 import RbV.Thm.GenSrcHamming
 import RbV.Thm.GenSrcUkkonen
 import RbV.Thm.GenSrcMyersSimple
+import RbV.Thm.GenSrcMyersLong
 import RbV.Lemmas.HitsClamp
 /-!
 # C09 — approximate matchers and distance functions equal the edit-distance definition
@@ -428,5 +429,36 @@ example : RbV.Thm.GenSrcMyersSimple.findAllSrc 8 8 [0, 0b101, 0b010, 0] 0b100 3 
     = RbV.Rs.Res.ok [(1, 1), (2, 0), (3, 1), (4, 1), (5, 1)] := by decide
 example : RbV.Thm.GenSrcMyersSimple.findAllSrc 16 8 [0, 0b101, 0b010, 0] 0b100 3 [1, 2, 1, 3, 1, 1] 1
     = RbV.Rs.Res.ok (hits (unitW eqSym) [1, 2, 1] [1, 2, 1, 3, 1, 1] 1) := by decide
+
+/-! ### The block step of the block-based Myers matcher, translated from the source text (genukk)
+
+`RbV/Gen/SrcMyersLong.lean` = `advance_block` of `pattern_matching/myers/long.rs`.  (`States::step` — the carry chain over the
+`Vec<State>` and the lazy activation / deactivation of blocks — is not translated; it stays tied by the mirror model
+`Model/MyersLong.lean`, `myers_long_eq`, and the correspondence run.) -/
+
+/-- **`advance_block`, as written, is the model's block step — for every word width** `w ≥ 2`: when `p.peq[a]` holds the
+word `eq` and `p.bound = 1 << bnd`, the translated function maps the representation `(pv, mv, dist)` of a block `s` and the
+`i8` pattern of the incoming horizontal difference `hin ∈ {−1, 0, 1}` to the representation of
+`MyersLong.advanceBlock bnd eq hin s` and the `i8` pattern of the outgoing difference, without panicking — on every block
+where `dist.wrapping_add(hout as usize)` does not wrap (`hlo`; by `myers_block_step` this holds whenever the block
+encodes a column with non-negative entries). -/
+theorem myers_long_advance_block_source_eq_model (w bnd : Nat) (hw : 1 < w) (peqT : List Nat) (a : Nat) (eq : BitVec w)
+    (s : RbV.Model.MyersSimple.St w) (hin : Int) (hh : -1 ≤ hin ∧ hin ≤ 1)
+    (hpeq : RbV.Rs.idx peqT a = RbV.Rs.Res.ok eq.toNat)
+    (hlo : ((s.pv &&& RbV.Model.MyersSimple.xhOf (if hin < 0 then eq ||| 1#w else eq) s.pv).getLsbD bnd).toNat ≤
+      s.dist + ((s.mv ||| ~~~(RbV.Model.MyersSimple.xhOf (if hin < 0 then eq ||| 1#w else eq) s.pv ||| s.pv)).getLsbD bnd).toNat)
+    (hhi : s.dist + 1 < 2 ^ 64) :
+    RbV.Gen.SrcMyersLong.advanceBlock (w := w) (pv := s.pv.toNat) (mv := s.mv.toNat) (dist := s.dist) (peq := peqT)
+        (bound := 2 ^ bnd) (a := a) (hin := RbV.Rs.ofInt 8 hin) =
+      RbV.Rs.Res.ok ((RbV.Model.MyersLong.advanceBlock bnd eq hin s).1.pv.toNat,
+        (RbV.Model.MyersLong.advanceBlock bnd eq hin s).1.mv.toNat, (RbV.Model.MyersLong.advanceBlock bnd eq hin s).1.dist,
+        RbV.Rs.ofInt 8 (RbV.Model.MyersLong.advanceBlock bnd eq hin s).2) :=
+  RbV.Thm.GenSrcMyersLong.advanceBlock_eq_model w bnd hw peqT a eq s hin hh hpeq hlo hhi
+
+-- non-vacuity: a `u8` block of 3 rows (bound = 0b100), incoming difference −1 (255) resp. +1
+example : RbV.Gen.SrcMyersLong.advanceBlock (w := 8) (pv := 255) (mv := 0) (dist := 3) (peq := [0, 0b101, 0b010, 0])
+    (bound := 0b100) (a := 2) (hin := 255) = RbV.Rs.Res.ok (255, 0, 2, 255) := by decide
+example : RbV.Gen.SrcMyersLong.advanceBlock (w := 8) (pv := 255) (mv := 0) (dist := 3) (peq := [0, 0b101, 0b010, 0])
+    (bound := 0b100) (a := 3) (hin := 1) = RbV.Rs.Res.ok (254, 0, 3, 0) := by decide
 
 end RbV.Thm.C09
